@@ -18,6 +18,8 @@
 //!   "source_mode": "shared_arc" | "cloned"
 //!   "max_producers": n      the workload has at most n producer threads
 //!   "uses_stop": bool       the workload calls stop()
+//!   "consumer": "drain" | "abandon" | "stop_then_abandon" | "stall"   what the consumer thread does
+//!        (kinds of oracle C20.release: leaked / released_twice / released_while_queued)
 //!
 //! Entry field `oracle` is the exact oracle id ("C20.eos") or "C20.*".
 //! Only entries with status exactly "open" can match; "fixed: ..." entries suppress nothing.
@@ -78,6 +80,7 @@ impl Finding {
                 "source_mode" => v.as_str() == Some(match w.mode { SourceMode::SharedArc => "shared_arc", SourceMode::Cloned => "cloned" }),
                 "max_producers" => v.as_u64().map(|n| w.producers.len() as u64 <= n).unwrap_or(false),
                 "uses_stop" => v.as_bool() == Some(w.has_stop()),
+                "consumer" => v.as_str() == Some(w.consumer.label()),
                 _ => false, // unknown constraint: refuse rather than waive
             };
             if !ok {
